@@ -240,7 +240,7 @@ func run(c Case) *kit.Result {
 		kinds[op.K] = true
 		for _, cl := range op.Cls {
 			res.Label("str:" + cl)
-			if cl == gen.ClsControl || cl == gen.ClsXMLMeta || cl == gen.ClsTemplate || cl == gen.ClsLong {
+			if cl == gen.ClsControl || cl == gen.ClsXMLMeta || cl == gen.ClsTemplate || cl == gen.ClsLong || cl == clsRefs {
 				hostile = true
 			}
 		}
@@ -263,6 +263,10 @@ func run(c Case) *kit.Result {
 					res.Label("typed-hf-hit:" + tag)
 				}
 			}
+		}
+		if badDim(op) {
+			res.Label("img:declared-size-not-positive")
+			special = true
 		}
 		if op.Img != nil && isLibImageName(op.Img.Name) {
 			res.Label("img:library-generated-name")
@@ -313,6 +317,9 @@ func run(c Case) *kit.Result {
 		e := "ok"
 		if err != nil {
 			e = "err"
+			if badDim(op) {
+				res.Label("img:declared-size-not-positive:call-rejected")
+			}
 		} else {
 			okOps++
 		}
@@ -490,15 +497,15 @@ func TestC01(t *testing.T) {
 	}
 	kit.Main(t, kit.Spec[Case]{
 		ID: "C01", Level: "exploration",
-		Rule: "history of 1-30 (thorough 1-60) generated API calls over the whole public API with strings from all classes; non-trivial = >=3 distinct op kinds and at least one of {hostile string class (control, XML meta, template look-alike, long), image with non-.png name, template op, markdown op, reopen}; a quarter of the histories START on a document opened from a package of another producer (internal/foreign) whose footnotes/endnotes/numbering/settings parts come in the shapes other producers write (self-closing / empty / white-space-only root, other prefix, default namespace, XML declaration variants or none, BOM, comments and PIs around the root) and continue with 1-5 calls biased to those that touch only some parts (read-only accessors, one note kind, list items, note config, removers, save/reopen/render as template): non-trivial there = at least one part in a non-library shape and at least one successful call; distinct = distinct sequence of (start shapes, op kind, outcome, string classes). Widened corners (small probabilities): template data whose values are not plain strings (named string type, fmt.Stringer by value and by pointer, error, fmt.Formatter, []string, []interface{}, map, struct, template.HTML, []byte, ints/floats of several widths incl. zero, negative and large, bool, nil) handed over by SetVariable / SetVariables / FromStruct / Merge and rendered by TemplateEngine or by TemplateRenderer on a template file - half of them aimed at header/footer placeholders with text that cannot stand raw in XML; blocks of 10..65 calls of one kind (the 10th/11th/17th/33rd/65th image, note, list item, header call, style, table row/column ...); tables created with 9..65 rows or columns; image file names and argument strings equal to names the library generates itself (image10.png, header1.xml, Heading1, _Toc1, rId1 ...); 'swap' = the current document and one replaced earlier (template base, first render, the object before a reopen) are edited alternately. Every byte slice ToBytes returned is kept without copying and looked at again when the history is over",
+		Rule: "history of 1-30 (thorough 1-60) generated API calls over the whole public API with strings from all classes; non-trivial = >=3 distinct op kinds and at least one of {hostile string class (control, XML meta, template look-alike, long), image with non-.png name, template op, markdown op, reopen}; a quarter of the histories START on a document opened from a package of another producer (internal/foreign) whose footnotes/endnotes/numbering/settings parts come in the shapes other producers write (self-closing / empty / white-space-only root, other prefix, default namespace, XML declaration variants or none, BOM, comments and PIs around the root) and continue with 1-5 calls biased to those that touch only some parts (read-only accessors, one note kind, list items, note config, removers, save/reopen/render as template): non-trivial there = at least one part in a non-library shape and at least one successful call; distinct = distinct sequence of (start shapes, op kind, outcome, string classes). Widened corners (small probabilities): template data whose values are not plain strings (named string type, fmt.Stringer by value and by pointer, error, fmt.Formatter, []string, []interface{}, map, struct, template.HTML, []byte, ints/floats of several widths incl. zero, negative and large, bool, nil) handed over by SetVariable / SetVariables / FromStruct / Merge and rendered by TemplateEngine or by TemplateRenderer on a template file - half of them aimed at header/footer placeholders with text that cannot stand raw in XML; blocks of 10..65 calls of one kind (the 10th/11th/17th/33rd/65th image, note, list item, header call, style, table row/column ...); tables created with 9..65 rows or columns; image file names and argument strings equal to names the library generates itself (image10.png, header1.xml, Heading1, _Toc1, rId1 ...); 'swap' = the current document and one replaced earlier (template base, first render, the object before a reopen) are edited alternately. Every byte slice ToBytes returned is kept without copying and looked at again when the history is over. Round 5 (refs.go): a third of the AddMathFormula arguments and a thirtieth of the other free-text arguments are made of character / entity references (predefined, HTML/MathML names, unknown names, numeric references to legal, illegal and out-of-range code points, unterminated ones) as plain text, inside m:t or inside an attribute value of an OMML fragment; a sixth of the AddImageFromData calls declare a pixel width and/or height of 0 or below (the data stays a real image of the declared format) - a call the library rejects is not one of the calls that built the document, and the history goes on after it",
 		Gen:  genCase, Run: run, Findings: findings,
 		Assumptions: []string{"well-formedness is decided by the harness's own checker (encoding/xml strict + raw-token pass + attribute scanner), not by a schema validator",
-			"image data given to AddImageFromData really is of the declared format",
+			"image data given to AddImageFromData really is of the declared format; the declared pixel size may be 0 or negative (dimensions the caller could not determine): whether the library accepts or rejects such a call, the document saved after it is judged by the same clauses",
 			"bytes returned by ToBytes belong to the caller: a slice whose content is no longer what was returned when the history ends is judged again by the same clauses (an unchanged slice keeps its verdict); the well-formedness verdict of a part is memoised by the SHA-256 of its bytes",
 			"a start package of another producer is judged by the same oracle before it is opened (a rejected one is excluded and counted); every part shape the generator can emit is proven well-formed by the checker before the search starts; a UTF-8 byte order mark before an XML document is legal and skipped before the part is judged"},
 		MustSee: map[string]float64{"img:ext-not-png": 0.1, "str:control": 0.2, "op:reopen": 0.1, "op:tpldoc": 0.1, "op:md": 0.1, "entry:Save": 0.3, "op:tpldoc2": 0.05, "side-document-saved": 0.3,
 			"op:typed-data": 0.1, "typed:header-footer-placeholder-gets-non-string-xml-hostile-value": 0.03, "tobytes-result-held-across-later-tobytes": 0.3,
-			"bulk:10-or-more-calls-of-one-kind": 0.02, "op:swap-documents": 0.02, "img:library-generated-name": 0.01,
+			"bulk:10-or-more-calls-of-one-kind": 0.02, "op:swap-documents": 0.02, "img:library-generated-name": 0.01, "img:declared-size-not-positive": 0.01, "str:char-or-entity-reference": 0.1,
 			"start:foreign": 0.15, "fp:selfclosing-root": 0.08, "fp:prefix:other": 0.04, "fp:prefix:default-ns": 0.04, "fp:bom": 0.03, "fp:decl:none": 0.03, "op:partial-touch": 0.2},
 	})
 }
